@@ -501,6 +501,8 @@ fn parse_all(frame: &[u8], h: &Header, q: &[u8], b: &[u8], rt: &tokio::runtime::
     chk("Message::from_slice_exact", g(&|| Message::from_slice_exact(frame).map(|m| (m.header, m.query, m.body)).map_err(|e| e.to_string())));
     chk("MessageView::from_slice", g(&|| MessageView::from_slice(frame).map(|m| (m.header, m.query.to_vec(), m.body.to_vec())).map_err(|e| e.to_string())));
     chk("MessageView::from_slice_exact", g(&|| MessageView::from_slice_exact(frame).map(|m| (m.header, m.query.to_vec(), m.body.to_vec())).map_err(|e| e.to_string())));
+    chk("MessageView::to_message", g(&|| MessageView::from_slice(frame).map(|v| { let m = v.to_message(); (m.header, m.query, m.body) }).map_err(|e| e.to_string())));
+    chk("Message::serialized_len", g(&|| Message::from_slice(frame).map_err(|e| e.to_string()).and_then(|m| if m.serialized_len() == 48 + q.len() + b.len() && m.serialized_len() == m.to_vec().len() { Ok((m.header, m.query, m.body)) } else { Err(format!("serialized_len {} for a {}-byte frame", m.serialized_len(), m.to_vec().len())) })));
     chk("Header::decode", g(&|| Header::decode(frame).map(|hh| (hh, q.to_vec(), b.to_vec())).map_err(|e| e.to_string())));
     chk("read_message", g(&|| repe::read_message(&mut std::io::Cursor::new(frame)).map(|m| (m.header, m.query, m.body)).map_err(|e| e.to_string())));
     chk("read_message_into", g(&|| {
